@@ -585,7 +585,9 @@ def bb_scenarios(tier, rng):
           ("cl_close_at", 30), ("cl_close_at", 66), ("cl_close_at", len(HEAD_CLC + BODY)), ("cl_close_twice", 0),
           ("early_response", 0), ("continue100", 0), ("expect100", 0), ("hints103", 0),
           ("continue_then_close", 0), ("continue_then_close", 1), ("continue_then_close", 2),
-          ("upgrade_then_close", 0), ("two_finals", 0)]
+          ("upgrade_then_close", 0), ("two_finals", 0),
+          ("reuse_stall", 0), ("reuse_stall_after", 65), ("reuse_close_at", 0), ("reuse_close_at", 30), ("reuse_close_at", 65),
+          ("reuse_reset_at", 0), ("sticky_refusing", 0)]
     if tier != "quick":
         s += [("close_at", k) for k in range(0, len(HEAD_CL + BODY) + 1)]
         s += [("reset_at", k) for k in range(0, len(HEAD_CL + BODY), 3)]
@@ -637,8 +639,15 @@ def extra_stage(tier, rng, work):
     # predictions
     flat, index = [], []
     for kind, k in scns:
+        if kind.startswith("reuse_"):
+            # keep-alive reuse of the client and of the backend connection: the fault hits the SECOND request;
+            # the automaton's prediction for that request is the one of the plain fault (after a recycle)
+            sch, blen = predict_inputs(kind[len("reuse_"):], k)
+            index.append((len(flat), len(sch), blen))
+            flat += sch
+            continue
         if kind in ("keepalive_close", "cl_close_twice", "early_response", "continue100", "expect100", "hints103",
-                    "continue_then_close", "upgrade_then_close", "two_finals"):
+                    "continue_then_close", "upgrade_then_close", "two_finals", "sticky_refusing"):
             index.append(None)
             continue
         sch, blen = predict_inputs(kind, k)
@@ -672,6 +681,23 @@ def extra_stage(tier, rng, work):
                     bad.append((i, "bb-mismatch", "early_response: first answer observed %s" % cl[:1]))
                 if len(rs) > 1 and rs[1]["status"]:
                     bad.append((i, "bb-two-answers", "early_response: a second answer (status %d) followed the early response of the same request" % rs[1]["status"]))
+                continue
+            if kind.startswith("reuse_"):
+                start, n, blen = index[i]
+                want = sorted(set(classify_events(p) for p in preds[start:start + n]))
+                cl = [classify_obs(r) for r in rs]
+                if not cl or cl[0] != "relay":
+                    bad.append((i, "bb-mismatch", "%s %d: first request on the connection observed %s" % (kind, k, cl[:1])))
+                elif len(cl) < 2:
+                    bad.append((i, "bb-no-result", "%s %d: the second request was not sent (first: eof=%s)" % (kind, k, rs[0]["eof"])))
+                elif cl[1] not in want:
+                    bad.append((i, "bb-reuse", "%s %d: the second request on the reused connections observed '%s', the automaton predicts %s"
+                                % (kind, k, cl[1], want)))
+                continue
+            if kind == "sticky_refusing":
+                # 503 is for "no usable backend": a healthy sibling exists, the refusing sticky target must not exhaust the retries
+                if classify_obs(rs[0]) != "relay":
+                    bad.append((i, "bb-sticky", "sticky_refusing: observed '%s' although a healthy backend exists (sticky cookie names a refusing backend)" % classify_obs(rs[0])))
                 continue
             if kind == "continue_then_close":
                 # an interim 100 and then the backend dies: the request is owed a 502 (the interim is not an answer);
